@@ -115,7 +115,7 @@ fn gen_entry(src: &mut Src, idx: usize) -> Entry {
   };
   let virt_sysfs = format!("/devices/virtual/input/input{}", input_no);
   let extras_all = vec!["P:".to_string(), "U:".to_string(), "H:".to_string(), "B: PROP".to_string(), "B: MSC=10".to_string(), "B: LED=7".to_string()];
-  let arch = src.weighted(&[30, 8, 10, 12, 6, 6, 6, 12, 10]);
+  let arch = src.weighted(&[28, 7, 9, 11, 5, 5, 5, 11, 9, 10]);
   let mut e = match arch {
     0 => Entry { arch: "keyboard".into(), name: Some(src.pick(KB_NAMES).to_string()), sysfs: Some(phys_sysfs), ev: Some("120013".into()), key: Some(mask_words(&full_keyboard_bits())), extra: extras_all.clone(), event_no: Some(event_no), devname_line: true, truth: Some(true) },
     1 => {
@@ -137,6 +137,32 @@ fn gen_entry(src: &mut Src, idx: usize) -> Entry {
     5 => Entry { arch: "switch".into(), name: Some(src.pick(&["Lid Switch", "Tablet Mode Switch"]).to_string()), sysfs: Some(phys_sysfs), ev: Some("21".into()), key: None, extra: vec!["P:".into(), "H:".into(), "B: SW=1".into()], event_no: Some(event_no), devname_line: true, truth: Some(false) },
     6 => Entry { arch: "cros_ec".into(), name: Some("cros_ec".into()), sysfs: Some(phys_sysfs), ev: Some("100013".into()), key: Some(mask_words(&full_keyboard_bits())), extra: extras_all.clone(), event_no: Some(event_no), devname_line: true, truth: Some(false) },
     7 => Entry { arch: "virtual-keyboard".into(), name: Some(src.pick(&["totalmapper", "ydotoold virtual device", "py-evdev-uinput"]).to_string()), sysfs: Some(virt_sysfs), ev: Some(src.pick(&["120013", "13"]).to_string()), key: Some(mask_words(&(1..562).collect::<Vec<u32>>())), extra: vec!["P:".into(), "H:".into()], event_no: Some(event_no), devname_line: true, truth: None },
+    9 => {
+      // boundary device: key count around the heuristic's threshold of 20, 2-4 of the "normal"
+      // keys, keys at bit 63 of a mask word (F5 = 63, COMPOSE = 127, F21 = 191, ...), with and
+      // without LEDs / "Mouse" / "keyboard" in the name
+      let normal_all: [u32; 10] = [30, 48, 46, 57, 42, 54, 14, 28, 1, 119];
+      let n_normal = src.range(2, 4);
+      let mut bits: Vec<u32> = src.distinct(&normal_all, n_normal);
+      let n_top = src.below(4);
+      for t in src.distinct(&[63u32, 127, 191, 255, 319, 383], n_top) {
+        bits.push(t);
+      }
+      let target = src.range(17, 24);
+      let filler: Vec<u32> = (2..=13).chain(16..=27).chain(59..=62).chain(64..=68).chain(103..=111).collect();
+      let mut fi = src.below(filler.len());
+      while bits.len() < target {
+        let b = filler[fi % filler.len()];
+        fi += 1;
+        if !bits.contains(&b) {
+          bits.push(b);
+        }
+      }
+      if src.chance(25) {
+        bits.push(178);
+      }
+      Entry { arch: "boundary".into(), name: Some(src.pick(&["USB Presenter", "Wireless Presenter Mouse", "Mini Keyboard", "Macro Pad", "HID 1234:5678 Mouse keyboard"]).to_string()), sysfs: Some(phys_sysfs), ev: Some(src.pick(&["120013", "13", "17", "100013"]).to_string()), key: Some(mask_words(&bits)), extra: vec!["P:".into(), "H:".into(), "B: MSC=10".into()], event_no: Some(event_no), devname_line: true, truth: None }
+    }
     _ => {
       // bit soup
       let nb = src.range(0, 90);
